@@ -1,7 +1,7 @@
 (* Gohcl/ModelProofs.v — proofs about the gohcl model (C16).
    Main results: [decode_encode], [decode_total], [json_decode_same],
    [pipeline_roundtrip] (Section hypotheses H11 / H02 / H12), and the refutations
-   [decode_encode_remain_struct_refuted], [decode_marked_panics]. *)
+   [decode_encode_remain_struct_refuted]. *)
 From Coq Require Import QArith.
 From HclV Require Import Base.Prelude Cty.Values Cty.Convert Gohcl.Model.
 Open Scope Z_scope.
@@ -210,18 +210,20 @@ Lemma existsb_map {A C} (g : C -> bool) (h : A -> C) (l : list A) :
   existsb g (map h l) = existsb (fun x => g (h x)) l.
 Proof. induction l as [|a r IH]; simpl; [reflexivity|]. rewrite IH. reflexivity. Qed.
 
-Lemma to_cty_unmarked t : forall v, contains_marked (reread (to_cty t v)) = false.
+Lemma unmark_reread_to_cty t : forall v, unmark_deep (reread (to_cty t v)) = reread (to_cty t v).
 Proof.
   induction t; intro v; destruct v; try reflexivity.
   - destruct o; [apply IHt|reflexivity].
   - destruct o as [l|]; [|reflexivity].
-    change (existsb contains_marked (map reread (map (to_cty t) l)) = false).
-    rewrite !existsb_map. apply existsb_map_false. intros x _. apply IHt.
+    change (VTuple (map unmark_deep (map reread (map (to_cty t) l))) = VTuple (map reread (map (to_cty t) l))).
+    f_equal. rewrite !map_map. apply map_ext. intro x. apply IHt.
   - destruct o as [l|]; [|reflexivity].
-    change (existsb (fun p : list Z * val => contains_marked (snd p))
+    change (VObj (map (fun p : list Z * val => (fst p, unmark_deep (snd p)))
               (map (fun p : list Z * val => (fst p, reread (snd p)))
-                 (map (fun p : list Z * sval => (fst p, to_cty t (snd p))) l)) = false).
-    rewrite !existsb_map. apply existsb_map_false. intros x _. simpl. apply IHt.
+                 (map (fun p : list Z * sval => (fst p, to_cty t (snd p))) l)))
+            = VObj (map (fun p : list Z * val => (fst p, reread (snd p)))
+                 (map (fun p : list Z * sval => (fst p, to_cty t (snd p))) l))).
+    f_equal. rewrite !map_map. apply map_ext. intro x. cbn [fst snd]. rewrite IHt. reflexivity.
 Qed.
 
 (* the attribute-level law: what DecodeExpression makes of what populateBody wrote *)
@@ -229,7 +231,7 @@ Lemma from_val_roundtrip t v :
   attr_ty t = true -> vtyped t v = true ->
   from_val t (reread (to_cty t v)) = FOk (norm_val t v).
 Proof.
-  intros Ha Ht. unfold from_val. rewrite to_cty_unmarked. apply from_val'_roundtrip; assumption.
+  intros Ha Ht. unfold from_val. rewrite unmark_reread_to_cty. apply from_val'_roundtrip; assumption.
 Qed.
 
 (* ---- structs: typing and well-formedness, unfolded ------------------------------------- *)
@@ -1061,13 +1063,6 @@ Proof.
 Qed.
 
 (* ---- totality: diagnostics, never a panic -------------------------------------------------- *)
-Definition attrs_unmarked (l : list (list Z * val)) : bool :=
-  forallb (fun p => negb (contains_marked (snd p))) l.
-Fixpoint file_unmarked (f : afile) : bool :=
-  match f with
-  | AFile a b => attrs_unmarked a && forallb (fun bl : ablock => file_unmarked (snd bl)) b
-  end.
-
 Lemma fres_all_no_panic l : (forall r, In r l -> r <> FPanic) -> fres_all l <> inr true.
 Proof.
   induction l as [|r l' IH]; simpl; intro H; [discriminate|].
@@ -1078,10 +1073,10 @@ Proof.
   - exfalso. apply (H FPanic); [left; reflexivity|reflexivity].
 Qed.
 
-Lemma from_val'_no_panic t : forall v,
-  attr_ty t = true -> contains_marked v = false -> from_val' t v <> FPanic.
+(* the conversion never panics at a type gocty has an implied type for — marked or not *)
+Lemma from_val'_no_panic t : forall v, attr_ty t = true -> from_val' t v <> FPanic.
 Proof.
-  induction t; intros v Ha Hm.
+  induction t; intros v Ha.
   all: try (destruct v; simpl in *; try discriminate;
             repeat match goal with |- context [match ?e with _ => _ end] => destruct e end; discriminate).
   - (* ptr *)
@@ -1089,16 +1084,14 @@ Proof.
       try (destruct (null_conv_ok t0 (implied t)); [|discriminate];
            match goal with |- context [match ?e with _ => _ end] => destruct e end; discriminate);
       match goal with |- context [from_val' t ?w] =>
-        assert (G := IHt w Ha Hm); destruct (from_val' t w); try discriminate; try contradiction end.
+        assert (G := IHt w Ha); destruct (from_val' t w); try discriminate; try contradiction end.
   - (* slice *)
     destruct v; simpl in *; try discriminate;
       try (destruct (null_conv_ok t0 (TList (implied t))); discriminate).
     all: match goal with |- context [fres_all ?l] =>
            assert (G : fres_all l <> inr true);
            [apply fres_all_no_panic; intros r Hr; rewrite in_map_iff in Hr; destruct Hr as [w [E Hw]]; subst r;
-            apply IHt; [exact Ha|];
-            destruct (contains_marked w) eqn:Cw; [|reflexivity];
-            exfalso; rewrite <- not_true_iff_false in Hm; apply Hm; apply existsb_exists; exists w; split; assumption
+            apply IHt; exact Ha
            |destruct (fres_all l) as [[xs|]|[|]]; try discriminate; contradiction] end.
   - (* map *)
     destruct v; simpl in *; try discriminate;
@@ -1106,38 +1099,30 @@ Proof.
     all: match goal with |- context [fres_all ?l] =>
            assert (G : fres_all l <> inr true);
            [apply fres_all_no_panic; intros r Hr; rewrite in_map_iff in Hr; destruct Hr as [w [E Hw]]; subst r;
-            apply IHt; [exact Ha|];
-            destruct (contains_marked (snd w)) eqn:Cw; [|reflexivity];
-            exfalso; rewrite <- not_true_iff_false in Hm; apply Hm; apply existsb_exists; exists w; split; assumption
+            apply IHt; exact Ha
            |destruct (fres_all l) as [[xs|]|[|]]; try discriminate; contradiction] end.
 Qed.
 
-Lemma dec_attr_no_panic ft o :
-  attr_ty ft = true -> (forall v, o = Some v -> contains_marked v = false) -> dec_attr ft o <> DPanic.
+Lemma dec_attr_no_panic ft o : attr_ty ft = true -> dec_attr ft o <> DPanic.
 Proof.
-  intros Ha Hm. unfold dec_attr. destruct o as [v|]; [|discriminate].
-  rewrite Ha. cbn [negb]. unfold from_val. rewrite (Hm v eq_refl).
-  assert (G := from_val'_no_panic ft v Ha (Hm v eq_refl)).
-  destruct (from_val' ft v); try discriminate. contradiction.
+  intros Ha. unfold dec_attr. destruct o as [v|]; [|discriminate].
+  rewrite Ha. cbn [negb]. unfold from_val.
+  assert (G := from_val'_no_panic ft (unmark_deep v) Ha).
+  destruct (from_val' ft (unmark_deep v)); try discriminate. contradiction.
 Qed.
 
-Lemma dec_map_no_panic te (f : afile) :
-  attr_ty te = true -> attrs_unmarked (f_attrs f) = true -> dec_map native_ops te f <> DPanic.
+Lemma dec_map_no_panic te (f : afile) : attr_ty te = true -> dec_map native_ops te f <> DPanic.
 Proof.
-  intros Ha Hm. unfold dec_map. cbn [b_just_attrs native_ops native_just_attrs].
+  intros Ha. unfold dec_map. cbn [b_just_attrs native_ops native_just_attrs].
   generalize (match f_blocks f with [] => [] | _ :: _ => [d_unexpected_block] end) as d0.
   generalize (@nil (list Z * sval)) as m0.
-  unfold attrs_unmarked in Hm. rewrite forallb_forall in Hm.
   induction (f_attrs f) as [|a r IH]; intros m0 d0; cbn [fold_left]; [discriminate|].
   assert (G := dec_attr_no_panic te (Some (snd a)) Ha).
-  destruct (dec_attr te (Some (snd a))) as [|x dx] eqn:E.
-  - exfalso. apply G; [|reflexivity]. intros v Ev. inversion Ev; subst.
-    apply negb_true_iff. apply Hm. left. reflexivity.
-  - apply IH. intros p Hp. apply Hm. right. exact Hp.
+  destruct (dec_attr te (Some (snd a))) as [|x dx] eqn:E; [contradiction|]. apply IH.
 Qed.
 
 Definition NP (t : fty) : Prop :=
-  forall f, wf_ty false t = true -> file_unmarked f = true -> gdecode native_ops t f <> DPanic.
+  forall f, wf_ty false t = true -> gdecode native_ops t f <> DPanic.
 Fixpoint deepNP (t : fty) : Prop :=
   match t with
   | FPtr t' | FSlice t' => deepNP t'
@@ -1159,10 +1144,10 @@ Proof.
 Qed.
 
 Lemma dec_block_no_panic sb (bl : ablock) :
-  NP (FStruct sb) -> wf_ty false (FStruct sb) = true -> file_unmarked (snd bl) = true ->
+  NP (FStruct sb) -> wf_ty false (FStruct sb) = true ->
   dec_block (gdecode native_ops) (FStruct sb) bl <> DPanic.
 Proof.
-  intros Hnp Hw Hm. unfold dec_block. specialize (Hnp (snd bl) Hw Hm).
+  intros Hnp Hw. unfold dec_block. specialize (Hnp (snd bl) Hw).
   destruct (gdecode native_ops (FStruct sb) (snd bl)) as [|v d]; [contradiction|].
   destruct (wf_ty_struct _ _ Hw) as [_ [_ Hf]].
   rewrite label_set_ok.
@@ -1172,33 +1157,28 @@ Qed.
 
 Lemma dec_block_list_no_panic sb (bls : list ablock) :
   NP (FStruct sb) -> wf_ty false (FStruct sb) = true ->
-  (forall bl, In bl bls -> file_unmarked (snd bl) = true) ->
   dec_block_list (gdecode native_ops) (FStruct sb) bls <> None.
 Proof.
-  intros Hnp Hw. induction bls as [|bl r IH]; intro Hm; [discriminate|].
+  intros Hnp Hw. induction bls as [|bl r IH]; [discriminate|].
   unfold dec_block_list. fold (dec_block_list (gdecode native_ops) (FStruct sb)).
-  assert (G := dec_block_no_panic sb bl Hnp Hw (Hm bl (or_introl eq_refl))).
+  assert (G := dec_block_no_panic sb bl Hnp Hw).
   destruct (dec_block (gdecode native_ops) (FStruct sb) bl); [contradiction|].
-  assert (G2 := IH (fun b H => Hm b (or_intror H))).
   destruct (dec_block_list (gdecode native_ops) (FStruct sb) r) as [[vs ds]|]; [discriminate|contradiction].
 Qed.
 
 Lemma dec_blocks_no_panic n ft sb (blks : list ablock) :
   block_ty ft sb -> NP (FStruct sb) -> wf_ty false (FStruct sb) = true ->
-  (forall bl, In bl blks -> file_unmarked (snd bl) = true) ->
   dec_blocks (gdecode native_ops) n ft blks <> DPanic.
 Proof.
-  intros Hb Hnp Hw Hm. unfold dec_blocks. cbv zeta.
+  intros Hb Hnp Hw. unfold dec_blocks. cbv zeta.
   match goal with |- context [filter ?p blks] => set (mine := filter p blks) end.
-  assert (Hmine : forall bl, In bl mine -> file_unmarked (snd bl) = true).
-  { intros bl H. apply filter_In in H as [H _]. apply Hm. exact H. }
-  assert (L := dec_block_list_no_panic sb mine Hnp Hw Hmine).
+  assert (L := dec_block_list_no_panic sb mine Hnp Hw).
   clearbody mine.
   destruct Hb.
   - destruct mine as [|b0 [|b1 r]]; try discriminate.
-    apply dec_block_no_panic; [exact Hnp|exact Hw|apply Hmine; left; reflexivity].
+    apply dec_block_no_panic; [exact Hnp|exact Hw].
   - destruct mine as [|b0 [|b1 r]]; try discriminate.
-    assert (G := dec_block_no_panic s b0 Hnp Hw (Hmine b0 (or_introl eq_refl))).
+    assert (G := dec_block_no_panic s b0 Hnp Hw).
     destruct (dec_block (gdecode native_ops) (FStruct s) b0); [contradiction|discriminate].
   - destruct mine as [|b0 r]; [discriminate|].
     destruct (dec_block_list (gdecode native_ops) (FStruct s) (b0 :: r)) as [[vs ds]|]; [discriminate|contradiction].
@@ -1216,62 +1196,48 @@ Proof.
   destruct (dec_fields rec c s') as [[vs ds]|]; [discriminate|contradiction].
 Qed.
 
-Lemma forallb_filter {A} (P Q : A -> bool) l : forallb P l = true -> forallb P (filter Q l) = true.
-Proof.
-  rewrite !forallb_forall. intros H x Hx. apply filter_In in Hx as [Hx _]. apply H. exact Hx.
-Qed.
-
 Lemma all_deepNP : forall t, deepNP t.
 Proof.
   apply fty_ind'; simpl; auto.
-  intros s IH F Hw Hm. rewrite Forall_forall in IH.
+  intros s IH F Hw. rewrite Forall_forall in IH.
   destruct (wf_ty_struct _ _ Hw) as [_ [_ Hwf]].
   cbn [gdecode]. unfold dec_struct. rewrite (schema_ok_b false s Hw).
   cbn [b_content native_ops].
   set (c := native_content (implied_schema s) (has_remain s) F).
-  destruct F as [A Bk]. cbn [file_unmarked] in Hm. apply andb_true_iff in Hm as [HmA HmB].
-  assert (HcA : forall n v, assoc_get n (c_attrs c) = Some v -> contains_marked v = false).
-  { intros n v H. apply assoc_get_In in H. unfold c, native_content in H. cbn [c_attrs f_attrs] in H.
-    apply filter_In in H as [H _]. unfold attrs_unmarked in HmA. rewrite forallb_forall in HmA.
-    apply negb_true_iff. apply (HmA (n, v) H). }
-  assert (HcB : forall bl, In bl (c_blocks c) -> file_unmarked (snd bl) = true).
-  { intros bl H. unfold c, native_content in H. cbn [c_blocks f_blocks] in H.
-    apply filter_In in H as [H _]. rewrite forallb_forall in HmB. apply HmB. exact H. }
-  assert (HcL : file_unmarked (c_left c) = true).
-  { unfold c, native_content. cbn [c_left f_attrs f_blocks file_unmarked].
-    apply andb_true_iff. split; [apply forallb_filter; exact HmA|apply forallb_filter; exact HmB]. }
   assert (G : dec_fields (gdecode native_ops) c s <> None).
   { apply dec_fields_no_panic. intros f Hin. specialize (Hwf f Hin). specialize (IH f Hin).
     unfold dec_field. destruct (f_kind f) eqn:K.
     - destruct (wf_field_attr false f) as [_ Ha]; [rewrite K; reflexivity|exact Hwf|].
-      apply dec_attr_no_panic; [exact Ha|]. intros v E. eapply HcA. exact E.
+      apply dec_attr_no_panic. exact Ha.
     - destruct (wf_field_attr false f) as [_ Ha]; [rewrite K; reflexivity|exact Hwf|].
-      apply dec_attr_no_panic; [exact Ha|]. intros v E. eapply HcA. exact E.
+      apply dec_attr_no_panic. exact Ha.
     - destruct (wf_field_block false f K Hwf) as [_ [sb [Hb Hwb]]].
-      apply (dec_blocks_no_panic (f_name f) (snd f) sb (c_blocks c) Hb (deepNP_block _ _ Hb IH) Hwb HcB).
+      apply (dec_blocks_no_panic (f_name f) (snd f) sb (c_blocks c) Hb (deepNP_block _ _ Hb IH) Hwb).
     - discriminate.
     - unfold wf_field in Hwf. rewrite K in Hwf. destruct (snd f) eqn:Ef; try discriminate.
-      + cbn [gdecode]. apply dec_map_no_panic; [exact Hwf|].
-        destruct (c_left c) as [la lb]. cbn [file_unmarked] in HcL. apply andb_true_iff in HcL as [H _]. exact H.
-      + cbn [negb andb] in Hwf. cbn [deepNP] in IH. apply IH; [exact Hwf|exact HcL]. }
+      + cbn [gdecode]. apply dec_map_no_panic. exact Hwf.
+      + cbn [negb andb] in Hwf. cbn [deepNP] in IH. apply IH. exact Hwf. }
   destruct (dec_fields (gdecode native_ops) c s) as [[vs ds]|]; [discriminate|contradiction].
 Qed.
 
 (* For every struct type gohcl accepts and EVERY abstract file (well- or ill-formed: missing,
-   extra, duplicated, mistyped items, wrong label counts, unknown and null values) whose
-   attribute values carry no marks, decoding returns a value and diagnostics — never Panic. *)
-Theorem decode_total : forall s f,
-  wf_schema s -> file_unmarked f = true -> decode s f <> DPanic.
-Proof. intros s f Hw Hm. apply (all_deepNP (FStruct s)); assumption. Qed.
+   extra, duplicated, mistyped items, wrong label counts, unknown, null and MARKED values),
+   decoding returns a value and diagnostics — never Panic. *)
+Theorem decode_total : forall s f, wf_schema s -> decode s f <> DPanic.
+Proof. intros s f Hw. apply (all_deepNP (FStruct s)). exact Hw. Qed.
 
-(* The restriction to unmarked values is necessary: gocty.FromCtyValue panics on a marked
-   value ("value is marked, so must be unmarked first"); such a value reaches it when the
-   EvalContext holds marked (e.g. sensitive) variables. *)
-Theorem decode_total_marked_refuted :
-  exists s f, wf_schema s /\ decode s f = DPanic.
+(* marks are dropped (DecodeExpression: UnmarkDeep): a marked value converts exactly as the
+   unmarked one *)
+Lemma from_val_unmark t v : from_val t (unmark_deep v) = from_val t v.
 Proof.
-  exists [([97], KAttr, FString)], (AFile [([97], VMark [1] (VStr [115]))] []).
-  vm_compute. split; reflexivity.
+  unfold from_val. f_equal.
+  revert v. fix IH 1. intro v. destruct v; try reflexivity.
+  - simpl. f_equal. induction l as [|x r IHr]; [reflexivity|]. simpl. rewrite IH, IHr. reflexivity.
+  - simpl. f_equal. induction l as [|x r IHr]; [reflexivity|]. simpl. rewrite IH, IHr. reflexivity.
+  - simpl. f_equal. induction l as [|[k x] r IHr]; [reflexivity|]. simpl. rewrite IH, IHr. reflexivity.
+  - simpl. f_equal. induction l as [|x r IHr]; [reflexivity|]. simpl. rewrite IH, IHr. reflexivity.
+  - simpl. f_equal. induction l as [|[k x] r IHr]; [reflexivity|]. simpl. rewrite IH, IHr. reflexivity.
+  - simpl. apply IH.
 Qed.
 
 (* ---- decoding depends on a body only through the hcl.Body interface ------------------------- *)
